@@ -1831,7 +1831,7 @@ int asn1_sequence_of_int_from_der(int *nums, size_t *nums_cnt, size_t max_nums, 
 	}
 	while (dlen) {
 		int num;
-		if (*nums_cnt > max_nums) {
+		if (*nums_cnt >= max_nums) {
 			error_print();
 			return -1;
 		}
